@@ -329,6 +329,62 @@ def _const_seq(a):
     raise Unknown("slice model on a non-constant slice")
 
 
+def _int_seq(a):
+    """python ints of a constant array or an aggregate array of folded integer constants (behind references / unsizing casts)"""
+    n = 0
+    while isinstance(a, tuple) and a and a[0] in ("ref", "cast", "as") and n < 6:
+        a = a[1]
+        n += 1
+    if isinstance(a, tuple) and a and a[0] == "const" and isinstance(a[1], tuple):
+        return [int(x) for x in a[1]]
+    if isinstance(a, tuple) and a and a[0] == "agg" and a[1] == "array" and all(_isc(x) for x in a[4]):
+        return [int(x[1]) for x in a[4]]
+    raise Unknown("slice model on a non-constant slice")
+
+
+def _binary_search(self, args):
+    seq = _int_seq(args[0])
+    k = args[1][1] if args[1][0] == "ref" else args[1]
+    if not _isc(k):
+        raise Unknown("binary_search for a non-constant key")
+    k = int(k[1])
+    if any(seq[i] > seq[i + 1] for i in range(len(seq) - 1)):
+        raise Unknown("binary_search on an unsorted slice")
+    hits = [i for i, v in enumerate(seq) if v == k]
+    if len(hits) == 1:
+        return ("agg", "adt", "std::result::Result", "Ok", (_c(hits[0]),), 0)
+    if hits:
+        raise Unknown("binary_search with several equal elements (unspecified which is returned)")
+    return ("agg", "adt", "std::result::Result", "Err", (_c(sum(1 for v in seq if v < k)),), 1)
+
+
+def _range_agg(r):
+    """a promoted constant range (decoded struct constant) as an aggregate of constants"""
+    if r[0] == "const" and isinstance(r[1], tuple):
+        d = dict(r[1])
+        if "fields" in d:
+            fs = [v for _, v in d["fields"]]
+            if len(fs) >= 2 and all(isinstance(v, int) for v in fs[:2]):
+                return ("agg", "adt", "range", "range", tuple(_c(v) for v in fs), 0)
+    return r
+
+
+def _range_incl_contains(self, args):
+    r = _range_agg(args[0][1] if args[0][0] == "ref" else args[0])
+    x = args[1][1] if args[1][0] == "ref" else args[1]
+    if not (r[0] == "agg" and len(r[4]) >= 2 and _isc(r[4][0]) and _isc(r[4][1]) and _isc(x)):
+        raise Unknown("contains on a non-constant range")
+    return _c(int(r[4][0][1]) <= int(x[1]) <= int(r[4][1][1]))
+
+
+def _range_contains(self, args):
+    r = _range_agg(args[0][1] if args[0][0] == "ref" else args[0])
+    x = args[1][1] if args[1][0] == "ref" else args[1]
+    if not (r[0] == "agg" and len(r[4]) >= 2 and _isc(r[4][0]) and _isc(r[4][1]) and _isc(x)):
+        raise Unknown("contains on a non-constant range")
+    return _c(int(r[4][0][1]) <= int(x[1]) < int(r[4][1][1]))
+
+
 def _slice_len(self, args):
     return _c(len(_const_seq(args[0])))
 
@@ -456,6 +512,10 @@ def _into_int(self, args):
 
 
 STD_MODELS = {
+    "std::ops::RangeInclusive::<Idx>::new": lambda self, args: ("agg", "adt", "std::ops::RangeInclusive", "RangeInclusive", (args[0], args[1], _c(False)), 0),
+    "core::slice::<impl [T]>::binary_search": _binary_search,
+    "std::ops::RangeInclusive::<Idx>::contains": _range_incl_contains,
+    "std::ops::Range::<Idx>::contains": _range_contains,
     "<T as std::convert::Into<U>>::into": _into_int,
     "<std::result::Result<T, F> as std::ops::FromResidual<std::result::Result<std::convert::Infallible, E>>>::from_residual": _from_residual,
     "std::option::Option::<T>::and_then": _opt_and_then,
